@@ -36,6 +36,8 @@ func ToComplex(value interface{}, prec uint) (cmplx *Complex) {
 	case int64:
 		cmplx[0] = new(big.Float).SetPrec(prec).SetInt64(value)
 		cmplx[1] = new(big.Float).SetPrec(prec)
+	case uint:
+		return ToComplex(new(big.Int).SetUint64(uint64(value)), prec)
 	case uint64:
 		return ToComplex(new(big.Int).SetUint64(value), prec)
 	case *big.Float:
